@@ -85,7 +85,8 @@ def _make_twin(module: str) -> str:
 
 def _env():
     e = dict(os.environ)
-    e["PYTHONPATH"] = f"{VERIF}:{GEN}"
+    alt = os.environ.get("VERIF_REPO")  # evaluation of seeded changes in a scratch worktree (tools/); checks use /repo
+    e["PYTHONPATH"] = (f"{alt}:" if alt else "") + f"{VERIF}:{GEN}"
     e["PYTHONHASHSEED"] = "0"
     e.setdefault("PBS_PYCAPTION_VERIF", "1")
     return e
@@ -176,6 +177,8 @@ sys.exit(1)
         f.write(code)
     e = dict(os.environ)
     e.pop("PYTHONPATH", None)
+    if os.environ.get("VERIF_REPO"):
+        e["PYTHONPATH"] = os.environ["VERIF_REPO"]
     e["PBS_PYCAPTION_VERIF"] = "1"
     try:
         p = subprocess.run([PY, path], capture_output=True, text=True, timeout=300, env=e, cwd=VERIF)
@@ -272,6 +275,8 @@ def _run_smt(pid: str, ob: Ob):
             # run the replay script independently as well
             ee = dict(os.environ)
             ee.pop("PYTHONPATH", None)
+            if os.environ.get("VERIF_REPO"):
+                ee["PYTHONPATH"] = os.environ["VERIF_REPO"]
             try:
                 pp = subprocess.run([PY, path], capture_output=True, text=True, timeout=300, env=ee, cwd=VERIF)
                 ok = pp.returncode == 1
